@@ -170,6 +170,7 @@ class Run:
         self.notes = {}
         self.assumptions = []
         self.exhaustive = True
+        shutil.rmtree(os.path.join(VERIF, "replays", pid), ignore_errors=True)
         kf = os.path.join(VERIF, "known_findings.json")
         self.known = [f for f in json.load(open(kf))["findings"]] if os.path.exists(kf) else []
 
